@@ -7,6 +7,84 @@ Harnesses using this state the 2**53 bound.
 from .core import SymInt, Unsupported, lift, If
 
 
+LIMIT = 1 << 53
+
+
+def true_div(n, d):
+    """int / int.  Exact rational while |numerator| < 2**53 (then floor/ceil of the correctly rounded double
+    equal those of the rational); IEEE double model (z3 FP, BV back end only) beyond that."""
+    ln = lift(n)
+    if ln.lo is not None and ln.hi is not None and -LIMIT < ln.lo and ln.hi < LIMIT:
+        return SymFrac(n, d)
+    import z3
+    from .core import CTX
+    if CTX.logic != "bv":
+        raise Unsupported("float division of integers that may exceed 2**53 (Int back end has no FP model)")
+    return SymFloat.div(n, d)
+
+
+class SymFloat:
+    """IEEE-754 double term; only what int-valued code does with a quotient is modelled."""
+
+    def __init__(self, e):
+        from .core import CTX
+        CTX.uses_fp = True
+        self.e = e
+
+    @staticmethod
+    def of_int(x):
+        import z3
+        x = lift(x)
+        if not z3.is_bv(x.e):
+            raise Unsupported("float of Int back-end value")
+        return z3.fpSignedToFP(z3.RNE(), x.e, z3.Float64())
+
+    @staticmethod
+    def div(n, d):
+        import z3
+        dl = lift(d)
+        if bool(dl == 0):
+            raise ZeroDivisionError("division by zero")
+        return SymFloat(z3.fpDiv(z3.RNE(), SymFloat.of_int(n), SymFloat.of_int(dl)))
+
+    def _to_int(self, rm):
+        import z3
+        from .core import mkint
+        r = z3.fpRoundToIntegral(rm, self.e)
+        # quotient magnitude is below 2**1024; callers in spsdk stay far below 2**127
+        return mkint(z3.fpToSBV(z3.RTZ(), r, z3.BitVecSort(130)), None, None, 64)
+
+    def __ceil__(self):
+        import z3
+        return self._to_int(z3.RTP())
+
+    def __floor__(self):
+        import z3
+        return self._to_int(z3.RTN())
+
+    def __trunc__(self):
+        import z3
+        return self._to_int(z3.RTZ())
+
+    __int__ = __trunc__
+
+    def __mul__(self, o):
+        import z3
+        if isinstance(o, (int, SymInt)):
+            return SymFloat(z3.fpMul(z3.RNE(), self.e, SymFloat.of_int(o)))
+        raise Unsupported("float arithmetic")
+
+    __rmul__ = __mul__
+
+    def __float__(self):
+        raise Unsupported("float value of symbolic quotient")
+
+    def __format__(self, spec):
+        return "⟦sym⟧"
+
+    __repr__ = __str__ = lambda self: "⟦sym⟧"
+
+
 class SymFrac:
     def __init__(self, n, d):
         self.n = n
